@@ -2,37 +2,37 @@
 From Fences Require Import GraphSpec GraphLinks GraphExec GraphAnalysis GraphTheorems GraphCheck.
 
 (* when generation ends normally, every leaf of the graph is applied by some yielded path *)
-Theorem C05_cover : forall V g root fuel lr0 a es,
-  wf g root ->
-  generate_paths V fuel g root lr0 aempty = Ok (a, (es, Ok tt)) ->
+Theorem C05_cover : forall V g root fuel lr0 lv0 a es,
+  wf g root -> (fix_reset V = true \/ forall s i, s < length g -> lv0 s i = None) ->
+  generate_paths V fuel g root lr0 lv0 = Ok (a, (es, Ok tt)) ->
   forall x, x < length g -> is_leaf g x = true ->
   exists e tr, In e es /\ exec fuel g root (epath e) = Ok (tr, []) /\ In x tr.
 Proof.
-  intros V g root fuel lr0 a es W GP.
-  exact (leaves_covered V g root W fuel lr0 a es (Ok tt) GP eq_refl).
+  intros V g root fuel lr0 lv0 a es W F GP.
+  exact (leaves_covered V g root W fuel lr0 lv0 a es (Ok tt) F GP eq_refl).
 Qed.
 Print Assumptions C05_cover.
 
 (* every yielded path applies a leaf (its target) that no earlier path applied *)
-Theorem C05_fresh : forall V g root fuel lr0 a es st es1 e es2,
-  wf g root ->
-  generate_paths V fuel g root lr0 aempty = Ok (a, (es, st)) -> es = es1 ++ e :: es2 ->
+Theorem C05_fresh : forall V g root fuel lr0 lv0 a es st es1 e es2,
+  wf g root -> (fix_reset V = true \/ forall s i, s < length g -> lv0 s i = None) ->
+  generate_paths V fuel g root lr0 lv0 = Ok (a, (es, st)) -> es = es1 ++ e :: es2 ->
   is_leaf g (etarget e) = true /\
   (exists tr, exec fuel g root (epath e) = Ok (tr, []) /\ In (etarget e) tr) /\
   forall e' tr', In e' es1 -> exec fuel g root (epath e') = Ok (tr', []) -> ~ In (etarget e) tr'.
 Proof.
-  intros V g root fuel lr0 a es st es1 e es2 W GP.
-  exact (paths_fresh V g root W fuel lr0 a es st GP es1 e es2).
+  intros V g root fuel lr0 lv0 a es st es1 e es2 W F GP.
+  exact (paths_fresh V g root W fuel lr0 lv0 a es st F GP es1 e es2).
 Qed.
 Print Assumptions C05_fresh.
 
 (* hence no more samples than leaves *)
-Theorem C05_count : forall V g root fuel lr0 a es st,
-  wf g root ->
-  generate_paths V fuel g root lr0 aempty = Ok (a, (es, st)) ->
+Theorem C05_count : forall V g root fuel lr0 lv0 a es st,
+  wf g root -> (fix_reset V = true \/ forall s i, s < length g -> lv0 s i = None) ->
+  generate_paths V fuel g root lr0 lv0 = Ok (a, (es, st)) ->
   exists its, items fuel g root = Ok its /\ NoDup its /\
               length es <= length (filter (is_leaf g) its).
-Proof. intros V g root fuel lr0 a es st W GP. exact (paths_count V g root W fuel lr0 a es st GP). Qed.
+Proof. intros V g root fuel lr0 lv0 a es st W F GP. exact (paths_count V g root W fuel lr0 lv0 a es st F GP). Qed.
 Print Assumptions C05_count.
 
 Definition c05_example : list op :=
